@@ -2478,7 +2478,7 @@ Proof.
     + cbn [dec_value base_of]. unfold dec_choice. change (tagset_of' (TChoice alts)) with (@nil tag). rewrite Hts.
       assert (Hinner: forall len', len' = len ->
                 consumes (dec_call BER (S f) (SMap (fields_tagmap true alts)) ts (Some len') false false) body (DV a v)).
-      { intros len' ->. cbn [dec_call]. unfold dec_body. cbn [andb]. apply consumes_mark.
+      { intros len' ->. cbn [dec_call]. unfold dec_body. cbn [andb].
         pose proof (so_match _ a (DV a) 0%nat Hmap f ts len cd fl body v Hi Hby Hets Hcd Hlen Hval) as H0.
         rewrite Nat.add_0_r in H0. exact H0. }
       assert (Hplace: choice_place (S f) (TChoice alts) alts (DV a v) = Ret (DV (TChoice alts) (VChoice j v))).
@@ -4388,12 +4388,15 @@ Example any_refuted_tag_zero :
   /\ decode BER (Some TAny) [36; 128; 4; 1; 7; 0; 0; 5] = Ok (DV TAny (VAny [36; 128; 4; 1; 7; 0; 0]), [5]).
 Proof. vm_compute. repeat split. Qed.
 
-(* outside the fragment, and a defect candidate: an untagged ANY as alternative of an untagged CHOICE loses its
-   identifier and length octets (the decoder re-enters with the marked position moved past the header);
-   as a SET member or after an OPTIONAL component the same ANY is decoded whole *)
-Example choice_any_alternative_loses_header :
+(* outside the fragment (an untagged ANY as alternative of an untagged CHOICE is chosen by the tag map's
+   default, not by a tag), but in agreement since the library keeps the marked position on re-entry
+   (formerly the identifier and length octets were lost: VAny [7]): the whole TLV, in either length form *)
+Example choice_any_alternative_whole_tlv :
   X690.read (TChoice [TInt; TAny]) [4; 1; 7] = Some (AChoice 1 (AAny [4; 1; 7]), [])
-  /\ decode BER (Some (TChoice [TInt; TAny])) [4; 1; 7] = Ok (DV (TChoice [TInt; TAny]) (VChoice 1 (VAny [7])), [])
+  /\ decode BER (Some (TChoice [TInt; TAny])) [4; 1; 7] = Ok (DV (TChoice [TInt; TAny]) (VChoice 1 (VAny [4; 1; 7])), [])
+  /\ X690.read (TChoice [TInt; TAny]) [36; 128; 4; 1; 7; 0; 0; 9] = Some (AChoice 1 (AAny [36; 128; 4; 1; 7; 0; 0]), [9])
+  /\ decode BER (Some (TChoice [TInt; TAny])) [36; 128; 4; 1; 7; 0; 0; 9]
+     = Ok (DV (TChoice [TInt; TAny]) (VChoice 1 (VAny [36; 128; 4; 1; 7; 0; 0])), [9])
   /\ decode BER (Some (TSeq [(Opt, TInt); (Req, TAny)])) [48; 3; 4; 1; 7]
      = Ok (DV (TSeq [(Opt, TInt); (Req, TAny)]) (VRec [None; Some (VAny [4; 1; 7])]), []).
 Proof. vm_compute. repeat split. Qed.
